@@ -201,6 +201,29 @@ func c17Gens(ctx *core.Ctx, idx int) core.Result {
 		want = val.ArrV(l)
 		src = collect(fmt.Sprintf("fromto(%s, %s)", calcInt(a), calcInt(b)))
 	case 1: // float bounds: a, a+1, ... below b
+		if r.Chance(1, 3) {
+			// an int start and a fractional float bound (and the other way round): the comparison is numeric
+			ai := r.Range(-4, 6)
+			b := float64(ai) + float64(r.Range(-3, 11))/4
+			var l []val.Value
+			if r.Bool() {
+				for x := ai; float64(x) < b; x++ {
+					l = append(l, val.IntV(int64(x)))
+				}
+				want = val.ArrV(l)
+				src = collect(fmt.Sprintf("fromto(%s, %s)", calcInt(ai), calcFloat4(b)))
+			} else {
+				bi := ai + r.Range(0, 3)
+				a := float64(ai) - float64(r.Range(0, 3))/4
+				for x := a; x < float64(bi); x++ {
+					l = append(l, val.FloatV(x))
+				}
+				want = val.ArrV(l)
+				src = collect(fmt.Sprintf("fromto(%s, %s)", calcFloat4(a), calcInt(bi)))
+			}
+			res.Tag("gen:fromto-mixed")
+			break
+		}
 		a := float64(r.Range(-8, 8)) / 2
 		b := a + float64(r.Range(-2, 9))/2
 		var l []val.Value
@@ -275,6 +298,14 @@ func calcInt(v int) string {
 		return fmt.Sprintf("(0 - %d)", -v)
 	}
 	return fmt.Sprint(v)
+}
+
+func calcFloat4(f float64) string {
+	s := fmt.Sprintf("%.2f", math.Abs(f))
+	if f < 0 {
+		return "(0 - " + s + ")"
+	}
+	return s
 }
 
 func calcFloat(f float64) string {
